@@ -327,9 +327,14 @@ h_msg(uint32_t tag, size_t extra)
 	if (nng_msg_alloc(&m, 0) != 0)
 		return NULL;
 	nng_msg_append_u32(m, tag);
-	for (size_t i = 0; i < extra; i++) {
-		uint8_t b = (uint8_t) (tag * 31 + i * 7);
-		nng_msg_append(m, &b, 1);
+	if (extra > 0) {
+		if (nng_msg_realloc(m, 4 + extra) != 0) {
+			nng_msg_free(m);
+			return NULL;
+		}
+		uint8_t *b = (uint8_t *) nng_msg_body(m) + 4;
+		for (size_t i = 0; i < extra; i++)
+			b[i] = (uint8_t) (tag * 31 + i * 7);
 	}
 	return m;
 }
